@@ -19,6 +19,8 @@
 (*                 offset = max(0, lb0 + ld - maxk(dst)),  (ld, lb0 - offset)                       *)
 (*   fused forms are compositions:  mul_add(dst, a, y) = add_assign(dst, mul_into(tmp like dst, a, y)) *)
 (*   add_many = add_into of the first two, then add_assign of the others (one input: unary copy)     *)
+(*   plaintext-weighted dot products = mul_into of the first pair, then fused mul-adds of the others  *)
+(*   align(a, b) = rescale_assign of the one with the larger budget by the difference                *)
 (* Alongside, a worst-case model of the value magnitude (mag, log2) and of the slot error          *)
 (* (el, log2) lets the trace validator bound the observed error by something proportional to       *)
 (* 2^-log_delta.                                                                                  *)
@@ -82,6 +84,11 @@ AddPtzOut(d, a, s, into) ==
 AddPtcOut(d, a, p, into) ==
   LET off == IF into THEN OffU(d, a) ELSE 0
   IN IF off > a.lb THEN Err(ErrCap, d) ELSE Ok(With(d, a.ld, a.lb - off, Max2(a.mag, p.mag) + 1, Max2(a.el, -p.ld) + 1))
+AddPtczOut(d, a, s, into) ==
+  LET off == IF into THEN OffU(d, a) ELSE 0 IN
+  IF off > a.lb THEN Err(ErrCap, d)
+  ELSE IF s.kz = 1 THEN Err(ErrAlign, d)
+  ELSE AddPtcOut(d, a, Pt(s), into)
 MulPtOut(d, x, p) ==
   LET lb0 == x.lb - p.ld
       off == Max2(0, lb0 + x.ld - d.maxk)
@@ -133,6 +140,24 @@ Outcome(regs, s) ==
     [] s.op \in {"add_ptz_into", "sub_ptz_into"} -> AddPtzOut(d, a, s, TRUE)
     [] s.op \in {"add_ptz_assign", "sub_ptz_assign"} -> AddPtzOut(d, d, s, FALSE)
     [] s.op = "mul_ptz_into" -> IF s.pb # B THEN Err(ErrBase, d) ELSE MulPtOut(d, a, PtZ(s))
+    [] s.op = "mul_ptz_assign" -> IF s.pb # B THEN Err(ErrBase, d) ELSE MulPtOut(d, d, PtZ(s))
+    [] s.op \in {"mul_add_ptz", "mul_sub_ptz"} -> IF s.pb # B THEN Err(ErrBase, d) ELSE Fused(d, MulPtOut(TmpLike(d), a, PtZ(s)), FALSE)
+    \* constants in limb form: for add / sub the caller encodes them at the destination's budget (s.kz = 1: one limb above it, refused)
+    [] s.op \in {"add_ptcz_into", "sub_ptcz_into"} -> AddPtczOut(d, a, s, TRUE)
+    [] s.op \in {"add_ptcz_assign", "sub_ptcz_assign"} -> AddPtczOut(d, d, s, FALSE)
+    [] s.op = "mul_ptcz_into" -> MulPtOut(d, a, Pt(s))
+    [] s.op = "mul_ptcz_assign" -> MulPtOut(d, d, Pt(s))
+    [] s.op \in {"mul_add_ptcz", "mul_sub_ptcz"} -> Fused(d, MulPtOut(TmpLike(d), a, Pt(s)), FALSE)
+    \* plaintext-weighted sums <(a, c), (w0, w1)> (s.bits = number of terms): the first product goes into dst, the others into a
+    \* temporary laid out like dst and are added in place
+    [] s.op \in {"dot_ptv", "dot_ptc", "dot_ptcz", "dot_ptz"} ->
+         LET P == IF s.op = "dot_ptz" THEN PtZ(s) ELSE Pt(s)
+             t0 == MulPtOut(d, a, P)
+         IN IF s.op = "dot_ptz" /\ s.pb # B THEN Err(ErrBase, d)
+            ELSE IF s.bits = 1 \/ t0.status # "ok" THEN t0
+            ELSE Fused(t0.reg, MulPtOut(TmpLike(d), regs[s.c], P), FALSE)
+    \* align(a, b): the register with the larger budget is rescaled down to the other's; s.d names it (the other is untouched)
+    [] s.op = "align" -> Ok([d EXCEPT !.lb = Min2(a.lb, b.lb)])
     [] s.op \in {"add_ptc_into", "sub_ptc_into"} -> AddPtcOut(d, a, Pt(s), TRUE)
     [] s.op \in {"add_ptc_assign", "sub_ptc_assign"} -> AddPtcOut(d, d, Pt(s), FALSE)
     [] s.op \in {"mul_ptv_into", "mul_ptc_into"} -> MulPtOut(d, a, Pt(s))
